@@ -92,6 +92,13 @@ Definition check_slot_span (min_slot max_slot slot span : N) : bool (* true = ni
 Definition check_slot_span_spec (min_slot max_slot slot span : N) : bool :=
   (slot + span <? two64) && (min_slot <=? slot + span) && (slot <=? max_slot).
 
+(* ---------- XorBytes32 (hashing/hash_util.go): byte-wise xor of two 32-byte arrays ---------- *)
+Fixpoint xor_bytes (a b : list N) : list N :=
+  match a, b with
+  | x :: a', y :: b' => N.lxor x y :: xor_bytes a' b'
+  | _, _ => []
+  end.
+
 (* ---------- VerifyMerkleBranch over an arbitrary hash ---------- *)
 Section Merkle.
   Context {B : Type}.                       (* byte strings *)
